@@ -1,3 +1,5 @@
+//go:build !passthrough
+
 // Package simrt is a deterministic, single-baton runtime for instrumented Go code.
 //
 // Real goroutines are used, but exactly one of them runs at any time; every switch happens inside
